@@ -6,7 +6,11 @@ import (
 	"bufio"
 	"context"
 	"encoding/json"
+	"errors"
 	"fmt"
+	"github.com/olric-data/olric/internal/cluster/partitions"
+	"github.com/olric-data/olric/internal/verifhook"
+	"sync"
 	"time"
 
 	"github.com/olric-data/olric"
@@ -52,6 +56,55 @@ func (cl *Cluster) AbruptStop(i int) error {
 	return nil
 }
 
+// fail points (internal/verifhook, build tag verif): one armed point per harness process
+type armSpec struct {
+	point, victim string
+	nth           int
+	cl            *Cluster
+}
+
+var armed struct {
+	sync.Mutex
+	spec  *armSpec
+	fired map[string]interface{}
+}
+
+var errCrashed = errors.New("verif: the member stopped at this fail point")
+
+func init() {
+	verifhook.Set(func(point, who string, part uint64) error {
+		armed.Lock()
+		a := armed.spec
+		if a == nil || a.point != point {
+			armed.Unlock()
+			return nil
+		}
+		a.nth--
+		if a.nth > 0 {
+			armed.Unlock()
+			return nil
+		}
+		armed.spec = nil
+		cl := a.cl
+		self := cl.indexOf(who)
+		victim := self
+		if a.victim == "receiver" && self >= 0 {
+			// the current primary owner of the partition, as the member at the fail point sees it
+			victim = cl.indexOf(cl.Members[self].DB.VerifPrimary().PartitionByID(part).Owner().Name)
+		}
+		armed.fired = map[string]interface{}{"point": point, "who": self, "part": part, "victim": victim}
+		armed.Unlock()
+		if victim < 0 {
+			return nil
+		}
+		_ = cl.AbruptStop(victim)
+		if victim == self {
+			return errCrashed
+		}
+		return nil
+	})
+}
+
 func (cl *Cluster) routingDump() []map[string]interface{} {
 	var out []map[string]interface{}
 	for i, m := range cl.Members {
@@ -84,6 +137,9 @@ func init() {
 				continue
 			}
 			r := &dRunner{cl: cl, locks: map[string]olric.LockContext{}, rawTk: map[string][2]string{}, rawTv: map[string]string{}}
+			armed.Lock()
+			armed.spec, armed.fired = nil, nil
+			armed.Unlock()
 			for i := range sc.Ops {
 				op := &sc.Ops[i]
 				var ob map[string]interface{}
@@ -137,6 +193,60 @@ func init() {
 						cl.Members[op.M].DB.VerifBalancer().BalanceEagerly()
 					}
 					ob = map[string]interface{}{"r": "ok", "t0": t0.UnixMilli(), "t1": time.Now().UnixMilli()}
+				case "arm":
+					// {"op":"arm","c":"<point>","tok":"self|receiver","m":nth}: the nth time a member reaches the fail point, the
+					// victim (the member itself, or the current primary owner of the partition) is stopped abruptly there
+					armed.Lock()
+					armed.spec = &armSpec{point: op.C, victim: op.Tok, nth: op.M, cl: cl}
+					armed.fired = nil
+					armed.Unlock()
+					ob = map[string]interface{}{"r": "ok", "t0": time.Now().UnixMilli(), "t1": time.Now().UnixMilli()}
+				case "colocate":
+					// D40 witness: find a partition whose (new) primary owner X still is a backup owner of the same partition
+					// and whose previous owner A still holds primary data; run A's balancer (the primary fragment moves
+					// onto X, A drops it), then stop X abruptly before X's own balancer has moved its backup fragment on
+					t0 := time.Now()
+					ob = map[string]interface{}{"r": "ok", "found": false}
+					view := cl.Live()[0]
+					has := func(i int, kind partitions.Kind, p uint64) bool {
+						return i >= 0 && cl.Members[i].Alive && len(cl.Members[i].DB.VerifDMap().VerifFragmentKeys(kind, op.D, p)) > 0
+					}
+					for p := uint64(0); p < view.Cfg.PartitionCount && ob["found"] == false; p++ {
+						ow := view.DB.VerifPrimary().PartitionByID(p).Owners()
+						bw := view.DB.VerifBackup().PartitionByID(p).Owners()
+						a, x, form := -1, -1, ""
+						// (i) the new primary owner still holds the backup copy; its predecessor hands the primary fragment over
+						if len(ow) >= 2 {
+							x0 := cl.indexOf(ow[len(ow)-1].Name)
+							a0 := cl.indexOf(ow[len(ow)-2].Name)
+							if has(a0, partitions.PRIMARY, p) && has(x0, partitions.BACKUP, p) {
+								a, x, form = a0, x0, "primary-onto-backup-holder"
+							}
+						}
+						// (ii) the new backup owner still holds primary-kind data; the old backup owner hands the backup fragment over
+						if a < 0 && len(bw) >= 2 {
+							x0 := cl.indexOf(bw[len(bw)-1].Name)
+							a0 := cl.indexOf(bw[len(bw)-2].Name)
+							if has(a0, partitions.BACKUP, p) && has(x0, partitions.PRIMARY, p) {
+								a, x, form = a0, x0, "backup-onto-primary-holder"
+							}
+						}
+						if a < 0 || x < 0 || a == x {
+							continue
+						}
+						cl.Members[a].DB.VerifBalancer().BalanceEagerly()
+						_ = cl.AbruptStop(x)
+						ob["found"], ob["part"], ob["victim"], ob["sender"], ob["form"] = true, p, x, a, form
+						armed.Lock()
+						armed.fired = map[string]interface{}{"point": "colocate", "who": a, "part": p, "victim": x, "form": form}
+						armed.Unlock()
+					}
+					ob["t0"], ob["t1"] = t0.UnixMilli(), time.Now().UnixMilli()
+				case "fired":
+					armed.Lock()
+					ob = map[string]interface{}{"r": "ok", "fired": armed.fired, "t0": time.Now().UnixMilli(), "t1": time.Now().UnixMilli()}
+					armed.spec = nil
+					armed.Unlock()
 				case "sync":
 					t0 := time.Now()
 					cl.Sync()
